@@ -86,7 +86,7 @@ DETECTED_BY = {
  "C06-1": ["C06"], "C06-2": ["C12", "C06"], "C06-3": [], "C06-4": ["C06"],
  "C07-1": ["C07"], "C07-2": ["C07"], "C07-3": ["C07"], "C07-4": ["C07"],
  "C08-1": ["C08"], "C08-2": ["C08"], "C08-3": ["C08"],
- "C09-1": ["C09"], "C09-2": [], "C09-3": ["C08", "C09"],
+ "C09-1": ["C09"], "C09-2": [], "C09-3": ["C08"],
  "C10-1": ["C10"], "C10-2": ["C10"], "C10-3": ["C17", "C10"], "C10-4": ["C02", "C10"],
  "C11-1": ["C11"], "C11-2": ["C11"], "C11-3": ["C11"],
  "C12-1": ["C12"], "C12-2": ["C12"], "C12-3": ["C12"], "C12-4": ["C05", "C12"],
@@ -118,6 +118,8 @@ NOTES = {
  "C14-2": "patch.diff is rebased on the repaired tree; the sub-agent's original is patch.orig-snapshot.diff",
  "C10-2": "patch.diff is rebased on the repaired tree; the sub-agent's original is patch.orig-snapshot.diff",
  "C04-2": "patch.diff is rebased on the repaired tree; the sub-agent's original is patch.orig-snapshot.diff",
+ "C05-3": "patch.diff is rebased on the current tree (after fix 3b8f35a touched the same import line); the sub-agent's original is patch.orig-snapshot.diff",
+ "C15-1": "patch.diff is rebased on the current tree (after the hook commit 91f9284 touched __exit__); the sub-agent's original is patch.orig-snapshot.diff",
 }
 for k, note in NOTES.items():
     f = os.path.join(HERE, "seeded", k, "meta.json")
